@@ -22,7 +22,7 @@
    configured depth < 40 (the recursion fuel of the model; ai.maxDepth is 15), p in U d for d up to the configured depth. *)
 From Coq Require Import NArith ZArith List Bool Lia.
 Require Import Board Move GameOver Eval EvalSpec Search NegamaxSpec SearchGen SearchExact SearchInst SearchC SearchLegal2 SearchNeg2 SearchNeg5.
-Require Import SearchTable1 SearchTable2 SearchTable3 SearchTable4 SearchTable5.
+Require Import SearchTable1 SearchTable2 SearchTable3 SearchTable4 SearchTable5 SearchTable6 SearchTable7 SearchTable8.
 Require Import Generated.Consts.
 Import ListNotations.
 Open Scope Z_scope.
@@ -79,3 +79,51 @@ Proof. exact touch_levels. Qed.
 (* a fresh engine of any table size is an engine state *)
 Theorem table_fresh_engine : forall U n, engine_inst U (new_state n).
 Proof. exact engi_new. Qed.
+
+(* ---- positions of ONE game: the syntactic NoCollision (SearchTable6.v, on top of PnCong1/3) ----
+   game_set sz bwt stones caps U: U (S d) p -> U d p; legal successors of live U (S d) positions are in U d; every position of U 0 is
+   replayed from tak.New(sz, ...) through accepted moves; and the ONLY hash hypothesis: two positions of U 0 with the same Position.Hash
+   are Position.Equal (Pn.pos_equal).  ask_game: ply + configured depth <= max_terminal_ply (the terminal scores - not the
+   classification - depend on the ply counter, so this stays with each call), game not over, configured depth < 40, p in U d. *)
+Theorem table_sim_classification : forall basis q p, PnCong1.sim q p -> cls_eq basis q p.
+Proof. exact sim_cls. Qed.
+
+Theorem table_game_touch : forall sz bwt stones caps, (3 <= sz <= 8)%N -> (2 * (stones + caps) <= 64)%N ->
+  forall U, game_set sz bwt stones caps U -> touch_set U.
+Proof. exact game_touch. Qed.
+
+Theorem table_win_sound_complete_game : forall sz bwt stones caps, (3 <= sz <= 8)%N -> (0 < stones)%N -> (2 * (stones + caps) <= 64)%N ->
+  forall U, game_set sz bwt stones caps U ->
+  forall s cfg k p sk pv v d acc c, engine_game U s -> precise cfg -> builtin_eval cfg -> ask_game cfg U p ->
+  analyze_cancel gen_basis cfg k s p = (sk, (pv, v, d, acc, c)) -> 0 < d -> verdict_ok gen_basis p v d.
+Proof. exact analyze_table_verdict_game. Qed.
+
+Theorem table_cancel_preserves_engine_game : forall sz bwt stones caps, (3 <= sz <= 8)%N -> (0 < stones)%N -> (2 * (stones + caps) <= 64)%N ->
+  forall U, game_set sz bwt stones caps U ->
+  forall s cfg k p sk r, engine_game U s -> precise cfg -> builtin_eval cfg -> ask_game cfg U p ->
+  analyze_cancel gen_basis cfg k s p = (sk, r) ->
+  engine_game U sk /\ SJ sk /\ tt_valid gen_basis (PosT U 0%nat) sk /\
+  forall cfg' k' p' sk' pv v d acc c, precise cfg' -> builtin_eval cfg' -> ask_game cfg' U p' ->
+    analyze_cancel gen_basis cfg' k' sk p' = (sk', (pv, v, d, acc, c)) -> 0 < d -> verdict_ok gen_basis p' v d.
+Proof. exact cancel_preserves_engine_game. Qed.
+
+Theorem table_game_levels : forall sz bwt stones caps, (3 <= sz <= 8)%N -> (0 < stones)%N -> (2 * (stones + caps) <= 64)%N ->
+  forall root D, in_game sz bwt stones caps root -> coll_free (lev root D) = true -> game_set sz bwt stones caps (Ulev root D).
+Proof. exact game_levels. Qed.
+
+(* ---- soundness for EVERY configuration without null move (SearchTable7/8.v): slide reduction, multi-cut, table, sort: any ----
+   sound_verdict basis p v := (v > WinThreshold -> exists n, W n p) /\ (v < -WinThreshold -> exists n, L n p); no depth bound, any
+   reported depth (also 0), any cancellation point, any history of such calls (precise ones included). *)
+Theorem table_sound_any_config : forall basis Pos, table_facts basis Pos ->
+  forall s cfg k p sk pv v d acc c, engine_s basis Pos s -> c_nonull cfg = true -> eval_facts cfg Pos -> call_s cfg Pos p ->
+  analyze_cancel basis cfg k s p = (sk, (pv, v, d, acc, c)) -> sound_verdict basis p v.
+Proof. exact analyze_sound_any. Qed.
+
+Theorem table_sound_any_config_inst : forall U, touch_set U ->
+  forall s cfg k p sk pv v d acc c, engine_sinst U s -> c_nonull cfg = true -> builtin_eval cfg -> ask_s cfg U p ->
+  analyze_cancel gen_basis cfg k s p = (sk, (pv, v, d, acc, c)) -> sound_verdict gen_basis p v.
+Proof. exact analyze_sound_any_inst. Qed.
+
+Theorem table_sound_search : forall basis cfg k, c_nonull cfg = true -> forall Pos, table_facts basis Pos -> eval_facts cfg Pos ->
+  forall f, ts_ok basis Pos (srch false basis cfg k f).
+Proof. exact srch_ts. Qed.
